@@ -377,6 +377,9 @@ def flat_stream(ck, quick):
     """the flat-sheet part of C03 (Props/C03_Flat.lean): tie of `runFlat` / `parseTree`, and the replay
     of the sheets on which the real parser and the tree reading `Sugar.evItems` differ"""
     drv = core.Driver()
+    ck.assumptions.append("flat machine (Props/C03_Flat.lean): equality of contexts is equality of dicts (insertion order ignored); "
+                          "the interface of the model run is read off the real run (raw kinds / raw-parse failures from the real RowParser, instantiations "
+                          "from the trace); the laws kind_inst and vars_ne are checked on every traced run")
     # deterministic: the witnesses of the hypotheses of flat_eq_tree, on the real parser and on the model
     for name, hdr, rows, expect in flat_tie.witnesses(G.HEADERS):
         tr = flat_tie.trace_flat(hdr, rows)
